@@ -341,6 +341,21 @@ def run(world, rep, tier, only=None):
                "every path from ext2fs_block_iterate3() to an inode write passes a fresh inode read: stale writes at lines %s" %
                [w_.line for w_ in stale], wit)
 
+    # ------------------------------------------------------------------ C11.h a full index node is recognised before its limit is lowered
+    # Enabling metadata_csum takes the room of one dx_entry at the end of every htree index block for the checksum.
+    # A node that is completely full (count == limit, as e2fsck -D packs them) cannot give it up: rewrite_dir_block()
+    # must see that - with the limit the node came with - and ask for the directory to be rebuilt.  Lowering the
+    # limit first makes the test miss and the tail is written over the last entry.
+    rdb = prog.fn("rewrite_dir_block", TF)
+    full_tests = [rdb.block_end(b) for b in rdb.blocks if rdb.literal(b) and
+                  {("ext2_dx_countlimit", "count"), ("ext2_dx_countlimit", "limit")} <= set(T.fields(rdb.literal(b)[0]))]
+    lim_stores = [n for n in rdb.events("S") if T.last_field(n.ev["lhs"]) == ("ext2_dx_countlimit", "limit")]
+    rep.floor("C11.h fullness test / limit stores in rewrite_dir_block", min(len(full_tests), len(lim_stores)), 1)
+    for i, ft_ in enumerate(full_tests):
+        early = [s_ for s_ in lim_stores if ft_ in rdb.reach(rdb.after(s_))]
+        rep.ob("C11.h", site(rdb, "count == limit tested on the limit the node came with#%d" % i), not early,
+               "no store into dcl->limit reaches the fullness test: %s" % [(s_.line, s_.text()[:30]) for s_ in early])
+
     # ------------------------------------------------------------------ C11.g dropping the UNINIT group flags materialises both bitmaps
     # While uninit_bg/metadata_csum is on, the on-disk bitmap blocks of UNINIT groups are never written and never
     # read.  Code that drops those flags makes the on-disk blocks authoritative, so both in-memory bitmaps must be
